@@ -731,6 +731,10 @@ func (r *PipelineRunner) initialLoadFromStore() error {
 
 func (r *PipelineRunner) SaveToStore() {
 	verifhook.Yield("SaveToStore", r)
+	if r.store == nil {
+		// A runner can be used without a store (see NewPipelineRunner): nothing to save
+		return
+	}
 	r.wg.Add(1)
 	defer r.wg.Done()
 
